@@ -44,6 +44,7 @@ def PermittedT (g : GState) : Ev → Prop
   | .ref a h => 0 < g.owns a h ∨ ((g.s.hdl h).thread = a ∧ (g.s.hdl h).threadRef = true)
   | .join a h => (0 < g.owns a h ∨ ((g.s.hdl h).thread = a ∧ (g.s.hdl h).threadRef = true)) ∧ (g.s.hdl h).joined = false
   | .unref a h => 0 < g.owns a h
+  | .joinFail a h => (0 < g.owns a h ∨ ((g.s.hdl h).thread = a ∧ (g.s.hdl h).threadRef = true)) ∧ (g.s.hdl h).joined = false
   | _ => True
 
 instance (g : GState) (e : Ev) : Decidable (PermittedT g e) := by
